@@ -18,7 +18,7 @@ RULE = ("legacy databases built by the real PeeweeStorage at its default path in
         "(generated instants/durations/JSON data, some events recorded two or three times identically; ids overlap across buckets; 100-row chunk boundaries crossed) and a few "
         "per cent with 999-5000 time-clustered, overlapping events (page / batch boundaries of any size up to 5000), in "
         "the normal and the testing profile, sometimes with the OTHER profile's legacy file present too; then "
-        "SqliteStorage is created at its default location, which triggers the migration; bucket sets, metadata and "
+        "SqliteStorage is created at its default location, which triggers the migration (in half of the cases its connection is then closed without any other call and the store is opened afresh, as after a start-and-stop of the server); bucket sets, metadata and "
         "per-bucket event multisets are compared and the legacy file is hashed before and after; evaluations = "
         "migrations; non-trivial = at least one bucket with events; signature = (profile, bucket-count class, "
         "event-count class, has data, has name, other profile present)")
@@ -84,7 +84,7 @@ def gen_case(rng, ctx):
         if rng.random() < 0.5:
             b["created"] = [rand_instant(rng), rand_offset(rng)]
         buckets.append(b)
-    return dict(testing=rng.random() < 0.5, buckets=buckets, other_profile=rng.random() < 0.3)
+    return dict(testing=rng.random() < 0.5, buckets=buckets, other_profile=rng.random() < 0.3, reopen=rng.random() < 0.5)
 
 
 def _sha(path):
@@ -148,6 +148,15 @@ def run_case(case, ctx):
             return [("migration-not-triggered", f"creating the default sqlite store beside {os.path.basename(lpath)} did not migrate")], \
                 dict(sig=("not-triggered",), nontrivial=True)
         ctx.count("migrations_triggered")
+        if case.get("reopen"):
+            # the process that created the store ends without having read or written anything else (no crash: the
+            # connection is simply closed), and the new store is opened again: the migration never runs twice, so
+            # whatever it left uncommitted is gone for good
+            sq.conn.close()
+            sq = SqliteStorage(testing=testing)
+            if _count[0] != before + 1:
+                viols.append(("migration-ran-again-on-reopen", f"{_count[0] - before} runs"))
+            ctx.count("stores_reopened_before_comparing")
         try:
             new = sq.buckets()
             if set(new) != set(legacy):
